@@ -542,6 +542,11 @@ CallFn(f, args, kw, env, log) ==
 
 Compare(op, a, b) ==
     IF op = "=" THEN B(VEq(a, b)) ELSE IF op = "!=" THEN B(~VEq(a, b))
+    ELSE IF a[1] = "S" /\ b[1] = "S" THEN
+         \* sets are ordered by inclusion (a partial order: two incomparable sets are neither < nor > nor <= nor >=)
+         LET ab == SubBag(a[2], b[2])
+             ba == SubBag(b[2], a[2])
+         IN CASE op = "<" -> B(ab /\ ~ba) [] op = "<=" -> B(ab) [] op = ">" -> B(ba /\ ~ab) [] op = ">=" -> B(ba)
     ELSE IF ~((a[1] = "i" /\ b[1] = "i") \/ a[1] = "n" \/ b[1] = "n") THEN ErrV
     ELSE CASE op = "<" -> B(Lt(a, b)) [] op = ">" -> B(Lt(b, a)) [] op = "<=" -> B(~Lt(b, a)) [] op = ">=" -> B(~Lt(a, b))
 
